@@ -109,6 +109,16 @@ pub fn resolve_timestamp(pattern: &str, timestamp: u64) -> Result<String> {
         }
     }
 
+    // Custom chrono format strings (start with %): schema validation accepts them, so resolve them
+    if pattern.starts_with('%') {
+        use std::fmt::Write;
+        let mut formatted = String::new();
+        write!(formatted, "{}", dt.format(pattern)).map_err(|_| {
+            ZervError::InvalidFormat(format!("Invalid custom timestamp format '{pattern}'"))
+        })?;
+        return Ok(formatted);
+    }
+
     let tokens = tokenize_pattern(pattern)?;
     let mut result = Vec::new();
 
